@@ -350,16 +350,20 @@ func dkgSubsetSums(polys [][]*big.Int, x int64) []*big.Int {
 // subset sums of the known polynomials
 func dkgKeysTerm(x crypto.PrivateKey, Y crypto.PublicKey, ys []crypto.PublicKey, polys [][]*big.Int) (string, map[string]any, error) {
 	xs := new(big.Int).SetBytes(x.Encode())
+	// a key whose discrete log is none of the expected sums is reported as -1: the model cannot
+	// produce it, so the case shows up as a disagreement (and fails the oracles) instead of
+	// stopping the run
+	unknown := big.NewInt(-1)
 	Ylog, ok := dkgLogOf(Y.Encode(), dkgSubsetSums(polys, 0))
 	if !ok {
-		return "", nil, fmt.Errorf("group public key has no known discrete log")
+		Ylog = unknown
 	}
 	var ylogs []*big.Int
 	var yhex []string
 	for j, y := range ys {
 		l, ok := dkgLogOf(y.Encode(), dkgSubsetSums(polys, int64(j+1)))
 		if !ok {
-			return "", nil, fmt.Errorf("public key share %d has no known discrete log", j)
+			l = unknown
 		}
 		ylogs = append(ylogs, l)
 		yhex = append(yhex, hx(y.Encode()))
